@@ -50,12 +50,17 @@ func (p c02) Gen(c *run.Ctx, idx int) (json.RawMessage, error) {
 	}
 	uidx := idx / per
 	cu, err := universe(c.Seed, "std", uidx, stdProfile)
+	if uidx%6 == 5 {
+		cu, err = universe(c.Seed, "hostile", uidx, hostileProfile)
+	}
 	if err != nil {
 		return nil, err
 	}
 	r := rng(c.Seed, "c02/op", idx)
 	prof := gen.DefaultOpProfile()
 	prof.Pool = cu.spec.Data.Pool
+	prof.IDStyle = cu.spec.Data.IDStyle
+	prof.HostileStrings = cu.spec.Data.Hostile
 	if idx%3 == 0 {
 		prof.PVar, prof.PVarDefault, prof.PArgsAlways = 0.7, 0.3, true
 	}
